@@ -430,8 +430,8 @@ class Reader:
             name = self.last_name
             assert self.zone_origin is not None
             if not name.is_subdomain(self.zone_origin):
-                self._eat_line()
-                return
+                # Ignore just this generated record; later ones may be in-zone.
+                continue
             if self.relativize:
                 name = name.relativize(self.zone_origin)
 
